@@ -745,3 +745,184 @@ SCENARIOS += [
     Scenario("C03.folding.dropout", s_dropout, F("dropout", "dropout.optimized_dropout", "_get_bool_value", "_get_numpy_value"),
              trusted=["ONNX Dropout: inference mode (training_mode absent or false) and ratio 0 copy the input and give an all-true mask"]),
 ]
+
+
+# ------------------------------------------------------------------ the same contracts for EVERY rank / length (deductive) ---
+# Shapes and Shape sym values of symbolic length (contracts/symshape.py).  all()/any()/== over them are used at ONE arbitrary
+# (Skolem) position, fixed before the call; since the position is arbitrary the obligations hold for every position.
+
+def _anyrank(ctx):
+    import onnx_ir as ir
+    from .symshape import SymShape
+    I = Interp(ctx)
+    I.quant_skolem = True
+    W = World(I)
+    state = new_state(I)
+    i0 = ctx.int("i0")   # forward index
+    ctx.assume(i0 >= 0)
+    ctx.witness["i0"] = i0
+    return ir, SymShape, I, W, state, i0
+
+
+def _val(W, name, symshape, dtype):
+    v = W.value(name, dims=None, rt=None, dtype=dtype)
+    v.fields["shape"] = symshape.obj if symshape is not None else None
+    return v
+
+
+CLR = "C09: '... stays correct for every concrete input shape the original model accepts' — every rank, every dim kind, every binding"
+
+
+def s_anyrank_reshape_expand(ctx, which):
+    """reshape / expand (target known through a Shape sym value of ANY length): Identity only if the target equals the run-time
+    shape of x (rank and every extent) under every binding."""
+    ir, SymShape, I, W, state, i0 = _anyrank(ctx)
+    X = SymShape(I, "x")
+    T = SymShape(I, "target", data=True)
+    x = _val(W, "x", X, ir.DataType.FLOAT)
+    s = W.value("target", dims=None, rt=None, dtype=ir.DataType.INT64)
+    I.call(I.getattr(state, "set_sym_value"), [s, T.obj])
+    node = W.node(which, [x, s])
+    op = OpRecorder()
+    try:
+        r = run_eval(I, getattr(_cf(), which.lower()), node, op, state)
+    except PyRaise:
+        ctx.check(f"C04.folding.{which.lower()}.any_rank.never_raises", False, CL04)
+        return
+    if r is None:
+        ctx.cover(f"{which}.any_rank.kept")
+        return
+    ok = is_identity_of(r, x)
+    ctx.check(f"C03.folding.{which.lower()}.any_rank.replacement_is_identity_of_the_input", ok, CL09)
+    if not ok:
+        return
+    I.instantiate_forall(i0)
+    ctx.cover(f"{which}.any_rank.identity")
+    px, pt = X.rank - 1 - i0, T.rank - 1 - i0
+    X.facts(px)
+    T.facts(pt)
+    ctx.check(f"C09.folding.{which.lower()}.any_rank.identity_only_if_the_target_has_the_rank_of_the_input", X.rank == T.rank, CLR)
+    # (Expand: output = broadcast(x.shape, target); with target == x.shape entry by entry that is x.shape)
+    ctx.check(f"C09.folding.{which.lower()}.any_rank.identity_only_if_target_equals_runtime_shape_for_every_binding",
+              z3.Implies(i0 < X.rank, T.rt(pt) == X.rt(px)), CLR)
+
+
+def s_anyrank_abs(ctx):
+    """abs over a Shape sym value of ANY length: Identity only if every entry is >= 0 under every binding (Inv_sym)."""
+    ir, SymShape, I, W, state, i0 = _anyrank(ctx)
+    T = SymShape(I, "x", data=True)
+    x = W.value("x", dims=None, rt=None, dtype=ir.DataType.INT64)
+    I.call(I.getattr(state, "set_sym_value"), [x, T.obj])
+    node = W.node("Abs", [x])
+    op = OpRecorder()
+    try:
+        r = run_eval(I, _cf().abs, node, op, state)
+    except PyRaise:
+        ctx.check("C04.folding.abs.any_rank.never_raises", False, CL04)
+        return
+    if r is None:
+        ctx.cover("abs.any_rank.kept")
+        return
+    ok = is_identity_of(r, x)
+    ctx.check("C03.folding.abs.any_rank.replacement_is_identity_of_the_input", ok, CL09)
+    if not ok:
+        return
+    I.instantiate_forall(i0)
+    ctx.cover("abs.any_rank.identity")
+    p = T.rank - 1 - i0
+    T.facts(p)
+    ctx.check("C09.folding.abs.any_rank.identity_only_if_every_element_nonnegative_for_every_binding",
+              z3.Implies(i0 < T.rank, T.rt(p) >= 0), CLR)
+
+
+def s_anyrank_shape(ctx):
+    """shape (Shape(x, start, end)) for every rank and every integer start / end: the recorded sym value (and the Constant, when
+    every selected dim is static) has the ONNX length (start / end clamped to [0, rank] after adding rank to negative values) and
+    its j-th entry denotes dim start' + j of x under every binding."""
+    from .symshape import describe, denotes
+    ir, SymShape, I, W, state, i0 = _anyrank(ctx)
+    X = SymShape(I, "x")
+    x = _val(W, "x", X, ir.DataType.FLOAT)
+    attrs = {}
+    start = end = None
+    if ctx.choose(2, "start given"):
+        start = ctx.int("start")
+        ctx.witness["start"] = start
+        attrs["start"] = SInt(start)
+    if ctx.choose(2, "end given"):
+        end = ctx.int("end")
+        ctx.witness["end"] = end
+        attrs["end"] = SInt(end)
+    node = W.node("Shape", [x], attrs=attrs)
+    op = OpRecorder()
+
+    def attr_ints(interp, name, value):
+        a = SObj(ir.Attr, "attr_" + name)
+        a.fields.update(name=name, value=value, type=ir.AttributeType.INTS)
+        return a
+    I.models[ir.AttrInt64s] = attr_ints
+    try:
+        r = run_eval(I, _cf().shape, node, op, state)
+    except PyRaise:
+        ctx.check("C04.folding.shape.any_rank.never_raises", False, CL04)
+        return
+    n = X.rank
+
+    def clamp(v, default):   # ONNX Shape-15: negative values count from the end, then clamp into [0, rank]
+        if v is None:
+            return default
+        w = z3.If(v < 0, v + n, v)
+        return z3.If(w < 0, 0, z3.If(w > n, n, w))
+    lo, hi = clamp(start, z3.IntVal(0)), clamp(end, n)
+    length = z3.If(hi > lo, hi - lo, 0)
+    out = node.fields["outputs"][0]
+    sv = I.call(I.getattr(state, "get_sym_value"), [out])
+    ctx.check("C09.folding.shape.any_rank.records_a_sym_value", isinstance(sv, SObj), CLR)
+    if not isinstance(sv, SObj):
+        return
+    dims = sv.fields["_dims"]
+    from pyvc.values import SSeq
+    dl = dims.len if isinstance(dims, SSeq) else z3.IntVal(len(dims))
+    ctx.check("C09.folding.shape.any_rank.recorded_length_is_the_onnx_slice_length", dl == length, CLR)
+    if not ctx.branch(z3.And(i0 < length)):
+        return
+    d = dims.at(i0) if isinstance(dims, SSeq) else None
+    if d is None:
+        return
+    fwd = lo + i0                      # forward index into x's shape
+    p = n - 1 - fwd
+    X.facts(p)
+    ctx.check("C09.folding.shape.any_rank.recorded_entry_denotes_the_selected_dim_for_every_binding", denotes(describe(d), X.rt(p)), CLR)
+    if r is None:
+        ctx.cover("shape.any_rank.no_constant")
+        return
+    ok = isinstance(r, Call) and r.op == "Constant" and set(r.kwargs) == {"value_ints"} and isinstance(r.kwargs["value_ints"], SObj)
+    ctx.check("C03.folding.shape.any_rank.replacement_is_a_constant_of_ints", ok, CL09)
+    if not ok:
+        return
+    I.instantiate_forall(i0)
+    ctx.cover("shape.any_rank.constant")
+    vals = r.kwargs["value_ints"].fields["value"]
+    vl = vals.len if isinstance(vals, SSeq) else z3.IntVal(len(vals))
+    ctx.check("C09.folding.shape.any_rank.constant_has_the_onnx_slice_length", vl == length, CLR)
+    c = vals.at(i0) if isinstance(vals, SSeq) else vals[0]
+    ctx.check("C09.folding.shape.any_rank.constant_entry_is_the_selected_dim_for_every_binding",
+              z3.And(z3.BoolVal(isinstance(c, (int, SInt))), (term(c) == X.rt(p)) if isinstance(c, (int, SInt)) else z3.BoolVal(False)), CLR)
+
+
+_TRA = ["shape annotations are sound for every accepted input; Inv_sym for Shape sym values (entries that are not static ints are dims, >= 0)",
+        "onnx_ir Shape / SymbolicDim (interpreted from their real source)",
+        "ONNX operator documentation: Reshape / Expand / Abs / Shape-15 (start, end clamping)"]
+_ASA = ["all()/any()/== over sequences of symbolic length are used at one arbitrary (Skolem) position only; termination not proved"]
+SCENARIOS += [
+    Scenario("C09.folding.reshape[any rank]", lambda ctx: s_anyrank_reshape_expand(ctx, "Reshape"),
+             [(REL, "reshape"), (REL, "_same_shape"), (REL, "_propagate_shape_value"), (REL, "OptimizerState.get_shape_value")],
+             trusted=_TRA, assumptions=_ASA, max_paths=20000, budget_s=900),
+    Scenario("C09.folding.expand[any rank]", lambda ctx: s_anyrank_reshape_expand(ctx, "Expand"),
+             [(REL, "expand"), (REL, "_same_shape"), (REL, "OptimizerState.get_shape_value")],
+             trusted=_TRA, assumptions=_ASA, max_paths=20000, budget_s=900),
+    Scenario("C09.folding.abs[any rank]", s_anyrank_abs, [(REL, "abs"), (REL, "OptimizerState.get_shape_value")],
+             trusted=_TRA, assumptions=_ASA, max_paths=20000, budget_s=900),
+    Scenario("C09.folding.shape[any rank]", s_anyrank_shape, [(REL, "shape"), (REL, "_get_int_attribute")],
+             trusted=_TRA, assumptions=_ASA, max_paths=20000, budget_s=900),
+]
